@@ -10,6 +10,9 @@ pub fn run(which: &str, _seed: u64, _workers: usize) -> i32 {
     if which == "all" || which == "rules" {
         code |= rules_selftest();
     }
+    if which == "determinism" {
+        code |= determinism_selftest();
+    }
     code
 }
 
@@ -45,6 +48,50 @@ pub fn rules_selftest() -> i32 {
     }
     if bad == 0 {
         println!("rules selftest: {} perft positions match published values; {} constructed positions valid", PERFT_SUITE.len(), gen::EDGE_FENS.len() + gen::EXPLOSIVE_FENS.len());
+        0
+    } else {
+        2
+    }
+}
+
+
+/// Every check's batch, in separate processes, at worker counts 1, 4 and 16 and twice at
+/// 16: the per-sim event-log hashes must be identical (this is also what would expose a
+/// dependence on HashMap's per-process hasher state).
+pub fn determinism_selftest() -> i32 {
+    let exe = std::env::current_exe().unwrap();
+    let scale = std::env::var("VERIF_SCALE").unwrap_or_else(|_| "0.25".into());
+    let ids = ["C03", "C04", "C05", "C06", "C07", "C09", "C11", "C12", "C13", "C15", "C16"];
+    let mut bad = 0;
+    let mut total_sims = 0usize;
+    for id in ids {
+        let mut outs: Vec<(String, Vec<String>)> = vec![];
+        for (label, workers) in [("w1", "1"), ("w4", "4"), ("w16a", "16"), ("w16b", "16")] {
+            let o = std::process::Command::new(&exe)
+                .args(["check", id, "--tier", "quick"])
+                .env("VERIF_HASH_ONLY", "1")
+                .env("VERIF_WORKERS", workers)
+                .env("VERIF_SCALE", &scale)
+                .env_remove("VERIF_REAL_BIN")
+                .output()
+                .expect("spawn");
+            let text = String::from_utf8_lossy(&o.stdout).to_string();
+            let lines: Vec<String> = text.lines().filter(|l| l.starts_with("PERSIM") || l.starts_with("BATCHHASH")).map(|s| s.to_string()).collect();
+            outs.push((label.to_string(), lines));
+        }
+        let base = &outs[0].1;
+        total_sims += base.len().saturating_sub(1);
+        for (label, lines) in &outs[1..] {
+            if lines != base || base.is_empty() {
+                bad += 1;
+                let diff = base.iter().zip(lines.iter()).find(|(a, b)| a != b);
+                println!("determinism selftest: {} differs between w1 and {}: {:?}", id, label, diff);
+            }
+        }
+        println!("determinism selftest: {} {} ({} sims, 4 processes, workers 1/4/16/16)", id, if bad == 0 { "identical" } else { "CHECK" }, base.len().saturating_sub(1));
+    }
+    if bad == 0 {
+        println!("determinism selftest: all per-sim event-log hashes identical ({} sims x 4 runs)", total_sims);
         0
     } else {
         2
